@@ -732,6 +732,16 @@ class Folder:
                     return any(t in known and isinstance(v0, known[t] if not isinstance(known[t], tuple) else known[t]) for t in tnames)
             if isinstance(v0, Rec) and all(t in known for t in tnames):
                 return False
+            # the type is itself a value (a variable / table entry holding a builtin type)
+            try:
+                tv = self.expr(e.args[1])
+            except Undecidable:
+                tv = None
+            tvs = list(tv) if isinstance(tv, (tuple, list)) else [tv]
+            if tv is not None and all(isinstance(t, Opaque) and t.text.startswith("type:") and t.text[5:] in known for t in tvs) and not isinstance(v0, (Opaque, sp.Basic)):
+                if isinstance(v0, Rec):
+                    return False
+                return any(isinstance(v0, known[t.text[5:]]) and not (t.text[5:] in ("int", "float") and isinstance(v0, bool) and t.text[5:] == "float") for t in tvs)
             raise Undecidable(f"isinstance({v0!r}, {norm(e.args[1])})")
         args = []
         for a in e.args:
